@@ -173,4 +173,44 @@ open Bufr.BuildSrc in
     projection of it -/
 theorem C14_src_repr_injective (a b : List Desc) (h : reprL a = reprL b) : a = b := reprL_inj a b h
 
+/-! ### `flat_member_ids` (the expansion that opens sequences) -/
+
+open Bufr.BuildSrc PyGen.descriptors in
+/-- **`flat_member_ids` as translated from the source is the model's `flatMemberIds`**: on every descriptor object
+    whose members are the object trees of a member list `t` of the model (a template, a sequence, a replication), for
+    every fuel above the size of `t`; no exception, the recursion terminates. -/
+theorem C14_src_expand_eq (X : Py.Small.Descr Elem) (t : List Desc) (hX : Py.Small.Descr.membersOf X = reprL t)
+    (fuel : Nat) (hf : sizeL t < fuel) :
+    flat_member_ids eid fuel X = .ok ((flatMemberIds t).map Int.ofNat) :=
+  flat_eq fuel X t hX hf
+
+open Bufr.BuildSrc PyGen.descriptors in
+/-- the expansion of what the regenerated builder returns (as the members of a template / sequence object with any id)
+    is the model's flattening of `buildD` -/
+theorem C14_src_expand_build (T : Tables) (depth : Nat) (hL : Loads T depth) (ids : List Nat) (t : List Desc)
+    (ht : buildD T (depth + 1) ids = .ok t) (fuel fuel2 : Nat) (hf : ids.length < fuel) (hf2 : sizeL t < fuel2)
+    (i : Int) :
+    (_descriptors_from_ids_iter (envOf T depth) fuel (ids.map Int.ofNat) >>= fun ds =>
+      flat_member_ids eid fuel2 (.seq i ds)) = .ok ((flatMemberIds t).map Int.ofNat) := by
+  rw [C14_src_build_eq T depth hL ids fuel hf, ht]
+  exact flat_eq fuel2 (.seq i (reprL t)) t rfl hf2
+
+open Bufr.BuildSrc PyGen.descriptors Spec in
+/-- **expansion of the regenerated build = the direct expansion of the id list** (`expand`, the tree-free counting
+    machine of the model), for every well-counted id list whose sequence ids have acyclic, well-counted rows
+    (`rowOK`), over every keyed table group that loads; from `C14_src_build_eq`, `C14_src_expand_eq` and the model's
+    `C14_expand_eq_direct_list`. -/
+theorem C14_src_expand_build_direct (T : Tables) (hK : T.Keyed) (depth : Nat) (hL : Loads T depth) (ids : List Nat)
+    (hwc : WellCounted ids = true) (hrows : ∀ m ∈ ids, 300000 ≤ m → rowOK T (depth + 1) m = true) (i : Int) :
+    ∃ out t, expand T (depth + 1) ids = some out ∧ buildD T (depth + 1) ids = .ok t ∧
+      ∀ fuel fuel2, ids.length < fuel → sizeL t < fuel2 →
+        (_descriptors_from_ids_iter (envOf T depth) fuel (ids.map Int.ofNat) >>= fun ds =>
+          flat_member_ids eid fuel2 (.seq i ds)) = .ok (out.map Int.ofNat) := by
+  obtain ⟨t, ht, he⟩ := C14_expand_eq_direct_list T hK (depth + 1) ids hwc hrows
+  exact ⟨flatMemberIds t, t, he, ht, fun fuel fuel2 hf hf2 => C14_src_expand_build T depth hL ids t ht fuel fuel2 hf hf2 i⟩
+
+open Bufr.BuildSrc in
+example : ∃ (X : Py.Small.Descr Elem) (t : List Desc), Py.Small.Descr.membersOf X = reprL t :=
+  ⟨.seq 999999 [], [], rfl⟩
+
 end Bufr
